@@ -440,6 +440,42 @@ def r4(F, rep):
         rep.add("C13-R4", "dtor", f.loc(), "~atom releases the index once, only when index >= 0", ok, func=f.q)
 
 
+def r7(F, rep):
+    rep.rule("C13-R7", "automatic state changes touch dynamic features only, in both directions: enable() called for a "
+                       "dependency (toplevel == false) returns an error for a feature that is not dynamic before it resolves "
+                       "any dependency, and the disable() that decr_ref_count() performs when a reference count reaches zero is "
+                       "guarded by is_dynamic(); user-set and static features keep the state they were given")
+    d = F.one("colvardeps::decr_ref_count")
+    dis = [c for c in X.calls(d) if X.callee_name(c) == "disable"]
+    if not dis:
+        raise AnalysisBroken("decr_ref_count: automatic disable() not found")
+    for c in dis:
+        facts, _ = C.guard_facts(d, c, X.const_locals(d))
+        dyn = any(t[0] == "true" and "is_dynamic(" in t[1] for t in facts)
+        zero = any((t[0] == "z" and "ref_count" in t[1]) or (t[0] == "cmp" and t[1] == "==" and "0" in (t[2], t[3])) or (t[0] == "eq" and "0" in t[1:]) or
+                   (t[0] in ("z", "eq") and "rc" in str(t)) for t in facts)
+        rep.add("C13-R7", "auto-disable", d.loc(c), "decr_ref_count(): disable() is reached only for a dynamic feature (%s) whose count reached zero (%s)" % (dyn, zero),
+                dyn and zero, detail="a feature the user switched on would be switched off when an unrelated object that depended on it is deleted", func=d.q)
+    e = F.one("colvardeps::enable")
+    res = X.const_locals(e)
+    rets = []
+    for r in e.walk():
+        if r["k"] != "ReturnStmt":
+            continue
+        facts, _ = C.guard_facts(e, r, res)
+        if any(t[0] == "false" and X.re_strip(t[1]) == "toplevel" for t in facts) and any(t[0] == "false" and "is_dynamic(" in t[1] for t in facts):
+            rets.append(r)
+    rec = [c for c in X.calls(e) if c.get("cq") == "colvardeps::enable"]
+    ok = bool(rets) and bool(rec) and all(any(e.cfg.can_reach(r0, c) is False and e.cfg.block_of(r0) is not None for r0 in rets) for c in rec)
+    # the refusal must come before the dependencies are resolved: its condition block dominates every recursive call
+    before = False
+    if rets:
+        cond_blocks = [cid for cid, pol in e.cfg.guards(rets[0])]
+        before = all(any(e.cfg.dominates(e.nodes[cid], c) for cid in cond_blocks) for c in rec)
+    rep.add("C13-R7", "auto-enable", e.loc(rets[0]) if rets else e.loc(), "enable(): a non-dynamic feature requested as a dependency is refused (%d return site) before any of the %d recursive enable() calls" % (
+        len(rets), len(rec)), bool(rets) and bool(rec) and before, func=e.q)
+
+
 def run(F, rep, tier):
     r1(F, rep)
     r2(F, rep)
@@ -447,3 +483,4 @@ def run(F, rep, tier):
     r4(F, rep)
     r5(F, rep)
     r6(F, rep)
+    r7(F, rep)
